@@ -32,6 +32,10 @@ Inductive op :=
                               (* to_arviz_inferencedata(variable_indices = sel); needs_dim: reached through plot_trace /
                                  plot_pair / plot_autocorrelation / plot_violin, which read _geometry_dim first; the value is
                                  the dictionary handed to arviz *)
+| OTrace (i : nat) (sel : option (list nat)) (exact : list Z)
+                              (* plot_trace(variable_indices = sel, exact = ...): the dictionary handed to arviz.plot_trace and the
+                                 `lines` it is given: (name of selected variable k, exact value for it); an exact vector of full
+                                 length is indexed by the selection, a shorter one must already match it *)
 | OEss (i : nat)              (* compute_ess(): value = what arviz.ess is handed *)
 | ORhat (i : nat) (js : list nat) (geom_eq : bool) (m : rmethod)
                               (* obj_i.compute_rhat([obj_j ...], method=m): value = what arviz.rhat is handed and, for
@@ -51,6 +55,7 @@ Inductive oval :=
 | VRhat (d : list (string * list (list Z))) (sq : option (list (option Q)))
                                                    (* name -> [chain of self; chains of the others], and per variable
                                                       Rhat^2 (None inside = nan; None outside = method not modelled) *)
+| VTrace (d : list (string * list Z)) (lines : list (string * Z))
 | VSelf                                            (* the target object itself was returned *)
 | VObj (o : hobj)                                  (* a new object (appended to the state) *)
 | VObjs (l : list hobj)                            (* new objects (appended to the state) *)
@@ -61,7 +66,7 @@ Inductive oval :=
 (* the objects an operation reads *)
 Definition op_targets (o : op) : list nat :=
   match o with
-  | OMean i | OMedian i | OVar i | OStd i | OCi i _ _ | OCiWidth i _ _ | OArviz i _ _ | OEss i
+  | OMean i | OMedian i | OVar i | OStd i | OCi i _ _ | OCiWidth i _ _ | OArviz i _ _ | OEss i | OTrace i _ _
   | OFunvals i | OVector i | OParameters i | OBurnthin i _ _ | OQuiet i => [i]
   | ORhat i js _ _ => i :: js
   | OJoint ms _ _ => ms
@@ -114,6 +119,19 @@ Definition arviz_value (g : geom) (x : hobj) (sel : option (list nat)) (needs_di
                     end
        end.
 
+Definition trace_value (g : geom) (x : hobj) (sel : option (list nat)) (ex : list Z) : oval :=
+  match arviz_value g x sel true with
+  | VDict d =>
+      let dim := chain_dim (s_chain x) in
+      let ks := match sel with Some ks => ks | None => seq 0 dim end in
+      let ex' := if (length ex =? dim)%nat then select ex ks else Some ex in
+      match ex', select (g_names g) ks with
+      | Some e, Some ns => if (length ks =? length e)%nat then VTrace d (zip ns e) else VRefused
+      | _, _ => VRefused
+      end
+  | v => v
+  end.
+
 (* the chain of one other object as it ends up in the array handed to arviz.rhat: as stored when the
    numbers of draws agree; a single draw repeated n times in the unrepaired code; otherwise refused *)
 Definition rhat_other (g : geom) (n : nat) (y : hobj) : option (list (list Z)) :=
@@ -152,6 +170,7 @@ Definition op_value (g : geom) (o : op) (args : list hobj) : option oval :=
   | OCiWidth _ cn cd, [x] => Some (VStat (stat_of (fun l => ci_width l cn cd) (s_chain x)))
   | OArviz _ sel nd, [x] => Some (arviz_value g x sel nd)
   | OEss _, [x] => Some (arviz_value g x None false)
+  | OTrace _ sel ex, [x] => Some (trace_value g x sel ex)
   | ORhat _ _ geq m, x :: ys => Some (rhat_value g x ys geq m)
   | OFunvals _, [x] =>
       Some (if negb (s_is_par x) && negb (s_is_vec x) then VSelf
@@ -241,6 +260,7 @@ Definition oval_close (obs mdl : oval) : bool :=
   | VStat a, VStat b => ql_close tol9 a b
   | VCi a1 a2, VCi b1 b2 => ql_close tol9 a1 b1 && ql_close tol9 a2 b2
   | VDict a, VDict b => dict_eqb zl_eqb a b
+  | VTrace a la, VTrace b lb => dict_eqb zl_eqb a b && list_eqb (fun p q => String.eqb (fst p) (fst q) && Z.eqb (snd p) (snd q)) la lb
   | VRhat a sa, VRhat b sb =>
       dict_eqb zll_eqb a b &&
       match sb, sa with
